@@ -11,8 +11,9 @@ Steps (all in a scratch worktree outside /repo and /verif, removed afterwards):
 import json, os, shutil, subprocess, sys, tempfile, re
 
 pid, X = sys.argv[1], sys.argv[2]
-src = "/tmp/seed-%s/%s" % (pid, X)
-dst = "/verif/seeded/%s-%s" % (pid, X)
+rnd = sys.argv[3] if len(sys.argv) > 3 else ""
+src = "/tmp/seed%s-%s/%s" % (rnd, pid, X)
+dst = "/verif/seeded/%s-%s%s" % (pid, ("r%s" % rnd) if rnd else "", X)
 wt = tempfile.mkdtemp(prefix="seedwt-")
 os.rmdir(wt)
 def run(cmd, cwd=None, env=None, timeout=1800):
@@ -54,6 +55,9 @@ if res.get("valid"):
     meta["verified"] = {k: res[k] for k in ("demo_without_change_rc", "demo_with_change_rc", "tests_passed", "compiles")}
     meta["ran"] = "tools/verify_seed.py %s %s: scratch worktree of /repo HEAD; demo before patch; git apply; compileall; pytest -q (214 passed); demo after patch; all claimed vstat quick checks with VERIF_REPO=<worktree>" % (pid, X)
     meta["detected_by"] = sorted(fired)
+    meta["detected_at_first_run"] = sorted(fired)
+    meta["first_run_verif_commit"] = subprocess.run(["git", "-C", "/verif", "rev-parse", "--short", "HEAD"], capture_output=True, text=True).stdout.strip()
+    meta["round"] = rnd or "1"
     meta["detection_detail"] = fired
     json.dump(meta, open(os.path.join(dst, "meta.json"), "w"), indent=1)
     print("recorded in", dst)
